@@ -153,6 +153,9 @@ def generate(rng, tier, idx):
         sc['trust'] = None
     if rng.random() < 0.3:
         sc['flip'] = [rng.randrange(0, 400), rng.choice('abcdefgh0123456789XYZ')]
+        if rng.random() < 0.3:
+            # a line feed of the signed text replaced by another "line boundary"-like character
+            sc['flip'] = [rng.randrange(0, 400), rng.choice(['\x0b', '\x0c', '\x1c', '\x1d', '\x1e', '\x85', '\u2028', '\u2029', '\x00']), 'lf']
     elif rng.random() < 0.1:
         sc['ws'] = rng.randrange(0, 10)
     return sc
@@ -305,8 +308,16 @@ def flip_text(signed, flip, ws):
     except ValueError:
         return signed, False
     body = '\n'.join(lines[start:end])
+    if flip is not None and len(flip) > 2 and flip[2] == 'lf':
+        pos, ch = flip[0], flip[1]
+        idxs = [i for i, c in enumerate(body) if c == '\n' and 0 < i < len(body) - 1 and body[i - 1] not in ' \t\n' and body[i + 1] != '\n']
+        if not idxs:
+            return signed, False
+        i = idxs[pos % len(idxs)]
+        body = body[:i] + ch + body[i + 1:]
+        return '\n'.join(lines[:start] + body.split('\n') + lines[end:]), True
     if flip is not None:
-        pos, ch = flip
+        pos, ch = flip[0], flip[1]
         idxs = [i for i, c in enumerate(body) if not c.isspace() and c != '-']
         if not idxs:
             return signed, False
